@@ -94,13 +94,15 @@ PROPS = {
     "C02": {
         "coq": ["Props/C02.v"],
         "level": "proof",
-        "harness": ["gwrun"],
-        "stages": [("gw", stage_gw, {"profiles": [("refs", 400, 4000), ("churn", 400, 4000), ("accrefs", 300, 2000), ("reset", 250, 1500), ("access", 200, 1000), ("legacy", 200, 1500), ("scgraph", 300, 2500), ("gets", 0, 1500), ("wild", 0, 1500)]})],
+        "harness": ["gwrun", "purediff"],
+        "stages": [("pure", stage_pure, {"suites": ["gc"], "n_quick": 3000, "n_thorough": 60000}),
+                   ("gw", stage_gw, {"profiles": [("refs", 400, 4000), ("churn", 400, 4000), ("accrefs", 300, 2000), ("reset", 250, 1500), ("access", 200, 1000), ("legacy", 200, 1500), ("scgraph", 300, 2500), ("gets", 0, 1500), ("wild", 0, 1500)]})],
         "rule": "as C01 with reference-changing events and unsubscribes; the reference client (Spec/Client.v) retains what is reachable from "
                 "direct subscriptions and outstanding subscribe/get requests; after every frame: no dangling reference, no event for an "
-                "unheld resource, right kind, index in range; non-trivial = more than 4 client frames and a quiescent point",
+                "unheld resource, right kind, index in range; non-trivial = more than 4 client frames and a quiescent point; plus the real collector "
+                "(removeCount/tryDelete/Dispose/Unsend) on synthetic graphs of 2-6 nodes with sharing, cycles and self references, chains of up to 3 releases",
         "assumptions": ["a client counts an outstanding subscribe/get request as a subscription until it is answered (as ResClient does)"],
-        "technique": "Coq monitor (reference client with reachability retention, extracted) evaluated on scheduled traces of the real gateway; collector theorems pending (DESIGN section 8)",
+        "technique": "Coq proof (collector model Comp/Gc.v: directly subscribed resources are never collected; the sent-count invariant is refuted with the recorded finding as witness) + direct-drive correspondence of the real collector (VerifGC) with the extracted model on synthetic graphs + Coq monitor (reference client with reachability retention, extracted) evaluated on scheduled traces of the real gateway",
         "level_text": "The property is stated as a decidable Coq predicate over observable traces and evaluated on explored histories of the real code; violations are replayable histories",
         "level_note": "trusted: Coq kernel, extraction, the harness (mock messaging system, consistent mock service, scheduler hooks, frame abstraction in harness/internal/gw); task atomicity (DESIGN section 4); modelled not verified: encoding/json, gorilla/websocket",
     },
